@@ -222,20 +222,17 @@ fn rotate(
 
     // In the common case, all of the archived files will be in the same
     // directory, so avoid extra filesystem calls in that case.
-    let parent_varies = match (
-        Path::new(dst_0.as_ref()).parent(),
-        Path::new(expand_env_vars(&pattern).as_ref()).parent(),
-    ) {
-        (Some(a), Some(b)) => a != b,
-        _ => false, // Only case that can actually happen is (None, None)
-    };
+    let parent_0 = Path::new(dst_0.as_ref()).parent().map(Path::to_path_buf);
 
     for i in (base..base + (count - 1)).rev() {
         let src = expand_env_vars(pattern.replace("{}", &i.to_string()));
         let dst = expand_env_vars(pattern.replace("{}", &(i + 1).to_string()));
 
-        if parent_varies {
-            if let Some(parent) = Path::new(dst.as_ref()).parent() {
+        // the index may end up in a directory component (also through an
+        // environment variable), so compare the actual destination directories
+        let parent = Path::new(dst.as_ref()).parent();
+        if parent != parent_0.as_deref() {
+            if let Some(parent) = parent {
                 fs::create_dir_all(parent)?;
             }
         }
